@@ -107,6 +107,8 @@ def run_sort(paths, tags, nums, rcookies, wcookies, gz_in=False, gz_out=False, i
     e = stubs.env()
     nodes = {nid: mk_node(nid, *tags[nid]) for nid in tags}
     lines = build_lines(paths, nums)
+    if NO_FINAL_NEWLINE[0] and lines:
+        lines = lines[:-1] + [lines[-1][:-1]]  # a file whose last record is not newline-terminated
     e.files["in.gaf"] = stubs.MFile("bgzf" if gz_in else "text", lines, rcookies)
     e.writer_cookies["o.gaf"] = wcookies
     if gz_out:
@@ -117,6 +119,9 @@ def run_sort(paths, tags, nums, rcookies, wcookies, gz_in=False, gz_out=False, i
     w.close()
     out = e.files["o.gaf"].lines
     return lines, out, e.pickles.get(index_file)
+
+
+NO_FINAL_NEWLINE = [False]
 
 
 def out_names(out):
@@ -238,6 +243,7 @@ def build_sort(params, which):
     index_file = params.get("index_file", "o.gsi" if which == "C10" else None)
 
     def case(*a):
+        NO_FINAL_NEWLINE[0] = bool(params.get("no_final_newline"))
         it = iter(a)
         tags = {}
         for nid in used:
@@ -281,7 +287,7 @@ def write_graph(wd, tags, name="g.gfa"):
     return p
 
 
-def real_sort(wd, paths, tags, nums, gz_in=False, gz_out=False, order=None, outind=None, want_index=True):
+def real_sort(wd, paths, tags, nums, gz_in=False, gz_out=False, order=None, outind=None, want_index=True, no_final_newline=False):
     """runs the real run_sort on real files; returns (input lines, output lines, index dict, error)"""
     import pickle
     import pysam
@@ -296,7 +302,8 @@ def real_sort(wd, paths, tags, nums, gz_in=False, gz_out=False, order=None, outi
         lines.append("r%d\t100\t0\t100\t+\t%s\t%d\t%d\t%d\t90\t100\t60\ttp:A:P\tcg:Z:10=" % (i, paths[i], plen, ps, pe))
     gaf = os.path.join(wd, "in.gaf")
     with open(gaf, "w") as fh:
-        fh.write("".join(l + "\n" for l in lines))
+        text = "".join(l + "\n" for l in lines)
+        fh.write(text[:-1] if no_final_newline else text)
     if gz_in:
         pysam.tabix_compress(gaf, gaf + ".gz", force=True)
         gaf = gaf + ".gz"
